@@ -36,12 +36,22 @@ fn cb_break(_l: u8, _a: u8, _input: &[u8], _out: &mut String) -> ControlFlow<Cow
     CB_CALLS.with(|c| c.set(c.get() + 1));
     ControlFlow::Break(Cow::Borrowed("stop"))
 }
+thread_local! {
+    static CB_SLICES: std::cell::RefCell<Vec<Vec<u8>>> = const { std::cell::RefCell::new(Vec::new()) };
+}
+/// continues with '?', and notes the bytes it is shown: the first `malformation_length` bytes of `input_at_malformation`
+fn cb_hex(l: u8, _a: u8, input: &[u8], out: &mut String) -> ControlFlow<Cow<'static, str>> {
+    CB_SLICES.with(|c| c.borrow_mut().push(input[..(l as usize).min(input.len())].to_vec()));
+    out.push('?');
+    ControlFlow::Continue(())
+}
 fn trap_of(name: &str) -> YAMLDecodingTrap {
     match name {
         "ignore" => YAMLDecodingTrap::Ignore,
         "replace" => YAMLDecodingTrap::Replace,
         "call" => YAMLDecodingTrap::Call(cb_continue),
         "callbrk" => YAMLDecodingTrap::Call(cb_break),
+        "callhex" => YAMLDecodingTrap::Call(cb_hex),
         _ => YAMLDecodingTrap::Strict,
     }
 }
@@ -93,6 +103,73 @@ fn decode_once(bytes: &[u8], trap: &str) -> Result<Result<Vec<Value>, &'static s
         }
     }))
     .map_err(panic_msg)
+}
+
+/// "continues as configured": a double-quoted scalar whose content alternates well-formed text and malformed byte groups
+/// (each one malformed sequence), in the three encodings; under each continuing trap the loaded string is recorded, and
+/// for the callback the bytes it was shown. Judged by Trace_DecodeTraps.
+pub fn traps_cmd(a: &Args) {
+    let mut w = crate::out_file(a.req("out"));
+    let mut rng = Rng::new(seed_from_env() ^ 0xc18_7a95);
+    let n = a.num("n", 1500);
+    let valid_pool = ["a", "bc", "x\u{e9}", "\u{8a9e}", "k1", "\u{ff}z", "\u{1f600}", "m \u{4e80}n", "\u{8080}", "q"];
+    let bad8: [&[u8]; 6] = [&[0xFF], &[0x80], &[0xC3], &[0xE4, 0xBD], &[0xF0, 0x9F], &[0xBF]];
+    let mut nrec = 0usize;
+    for i in 0..n {
+        let enc = ENCS[i % 3];
+        let bom = (i / 3) % 2 == 0;
+        let k = 1 + rng.below(4);
+        let mut valid: Vec<String> = vec![];
+        let mut bad: Vec<Vec<u8>> = vec![];
+        let mut bytes = encode("\"", enc, bom);
+        for j in 0..=k {
+            // a valid segment after a malformed group starts with an ASCII character (so the group stays one sequence)
+            let mut v = valid_pool[rng.below(valid_pool.len())].to_string();
+            if j > 0 {
+                v.insert(0, ['a', 'z', ' ', '7'][rng.below(4)]);
+            }
+            bytes.extend_from_slice(&encode(&v, enc, false));
+            valid.push(v);
+            if j < k {
+                let b: Vec<u8> = if enc == "utf8" {
+                    bad8[rng.below(bad8.len())].to_vec()
+                } else {
+                    let u: u16 = [0xD800u16, 0xDBFF, 0xDC00, 0xDFFF, 0xD83D][rng.below(5)];
+                    if enc == "utf16le" { u.to_le_bytes().to_vec() } else { u.to_be_bytes().to_vec() }
+                };
+                bytes.extend_from_slice(&b);
+                bad.push(b);
+            }
+        }
+        bytes.extend_from_slice(&encode("\"\n", enc, false));
+        let mut runs = serde_json::Map::new();
+        let mut slices: Vec<Vec<u8>> = vec![];
+        for trap in ["ignore", "replace", "call", "callhex"] {
+            CB_SLICES.with(|c| c.borrow_mut().clear());
+            let r = std::panic::catch_unwind(std::panic::AssertUnwindSafe(|| {
+                let mut dec = YamlDecoder::read(&bytes[..]);
+                dec.encoding_trap(trap_of(trap));
+                let out = match dec.decode() {
+                    Ok(d) if d.len() == 1 && d[0].as_str().is_some() => json!({"res": "str", "s": chars(d[0].as_str().unwrap())}),
+                    Ok(d) => json!({"res": "other", "s": [format!("{} documents", d.len())]}),
+                    Err(_) => json!({"res": "error", "s": []}),
+                };
+                out
+            }));
+            let v = match r {
+                Ok(v) => v,
+                Err(p) => json!({"res": "panic", "s": [panic_msg(p)]}),
+            };
+            runs.insert(trap.to_string(), v);
+            if trap == "callhex" {
+                slices = CB_SLICES.with(|c| c.borrow().clone());
+            }
+        }
+        writeln!(w, "{}", json!({"k": "TRAPS", "enc": enc, "bom": bom, "hex": hex(&bytes), "valid": valid.iter().map(|v| chars(v)).collect::<Vec<_>>(), "bad": bad, "runs": runs, "slices": slices})).unwrap();
+        nrec += 1;
+    }
+    w.flush().unwrap();
+    println!("{}", json!({"records": nrec, "evaluations": 4 * nrec}));
 }
 
 pub fn child(_a: &Args) {
